@@ -36,7 +36,7 @@ import (
 )
 
 func init() {
-	evid.Register(&evid.Check{ID: "C01", Level: "exploration", Run: run, QuickBudget: 200 * time.Second, ThoroughBudget: 45 * time.Minute})
+	evid.Register(&evid.Check{ID: "C01", Level: "exploration", Run: run, QuickBudget: 300 * time.Second, ThoroughBudget: 45 * time.Minute})
 }
 
 // Case is what is written to samples / replays.
